@@ -22,6 +22,7 @@ Refusable(pre, step) == step.op \in {"implicify", "canonicalize", "tautomers"} /
 StepLaws(pre, step) ==
   LET post == step.st  op == step.op IN
   IF step.exc # "" THEN If(Valid(pre) /\ ~Refusable(pre, step), op \o ":fails-on-valid-input:" \o step.exc)
+  ELSE IF post.broken = 1 THEN {op \o ":leaves-an-inconsistent-object"}
   ELSE If(post.heavy # pre.heavy, op \o ":heavy-atoms-changed")
        \cup If(Valid(pre) /\ post.bad # 0, op \o ":valence-error-produced")
        \cup If(Valid(pre) /\ Valid(post) /\ op \in Rearrangements /\ post.q # pre.q, op \o ":net-charge-changed")
